@@ -14,7 +14,7 @@ VARIABLES expPre, expOut
 
 ToSet(s) == {s[i] : i \in DOMAIN s}
 AllowIds == IF "ALLOW" \in DOMAIN IOEnv THEN IOEnv.ALLOW ELSE ""
-KnownIds == {"KF-C05-notlonger", "KF-C09-rollback-number", "KF-C16-txheight", "KF-C06-blockhash", "KF-C03-stale-before-start"}
+KnownIds == {"KF-C05-notlonger", "KF-C09-rollback-number", "KF-C16-txheight", "KF-C06-blockhash", "KF-C03-stale-before-start", "KF-C04-spanning-record"}
 Allow == {id \in KnownIds : \E i \in 1..(Len(AllowIds) - Len(id) + 1) : SubSeq(AllowIds, i, i + Len(id) - 1) = id}
 Prop == IF "PROP" \in DOMAIN IOEnv THEN IOEnv.PROP ELSE "C03"
 
@@ -132,9 +132,11 @@ Step(r) ==
                                 /\ IsPrefixSeq(cpFinal, cpFinal')       \* C07: final check points are append-only
       [] r.ev = "LastState"  -> RecvLastState(r.a.p, [b |-> r.a.b, ok |-> r.a.ok], Oracle(r)) /\ PipeUnchanged
       [] r.ev = "Proof"      -> /\ RecvProof(r.a.p, MsgOf(r.a), Oracle(r))
-                                \* a committed proof with a reorg section forgets the peer's latest filter hashes
-                                \* (they belong to the abandoned branch)
-                                /\ (peer'[r.a.p].pReorg # <<>> /\ (peer'[r.a.p].proved # peer[r.a.p].proved \/ peer'[r.a.p].pReorg # peer[r.a.p].pReorg))
+                                \* a proof that moves the peer's proved header to another branch forgets the peer's latest
+                                \* filter hashes (they belong to the abandoned branch)
+                                /\ (/\ HasProof(peer[r.a.p]) /\ HasProof(peer'[r.a.p])
+                                    /\ peer'[r.a.p].proved # peer[r.a.p].proved
+                                    /\ ~IsAnc(world, peer[r.a.p].proved, peer'[r.a.p].proved))
                                       => pf'[r.a.p].latest[2] = <<>>
                                 /\ UNCHANGED <<startOf, cpFinal, subst>>
                                 /\ CommitEffects(r.st.peer[r.a.p].pReorg, r.st.peer[r.a.p].pLastN,
@@ -222,7 +224,7 @@ ExpStep(r) ==
             /\ expOut' = expOut \cup {Core'} /\ UNCHANGED expPre
 
 TraceInit ==
-    /\ TLCSet(43, 0)
+    /\ TLCSet(43, 0) /\ TLCSet(44, 0)
     /\ expPre = <<>> /\ expOut = {}
     /\ l = 1
     /\ LET r == Rec[1] IN
